@@ -3,69 +3,98 @@ import NumbersModel.Lemmas.Formula
 namespace NumbersModel.Formula.Parse
 open NumbersModel NumbersModel.Formula
 
+/-! ### more fuel never changes a result -/
 
-theorem mono_step : ∀ F : Nat,
-    (∀ ts v, pPrimary F ts = some v → pPrimary (F + 1) ts = some v) ∧
-    (∀ ts v, pUnary F ts = some v → pUnary (F + 1) ts = some v) ∧
-    (∀ m ts v, pExpr F m ts = some v → pExpr (F + 1) m ts = some v) ∧
-    (∀ m lhs ts v, pLoop F m lhs ts = some v → pLoop (F + 1) m lhs ts = some v) := by
+structure Mono (F F' : Nat) : Prop where
+  prim : ∀ ts v, pPrimary F ts = some v → pPrimary F' ts = some v
+  un : ∀ ts v, pUnary F ts = some v → pUnary F' ts = some v
+  ex : ∀ m ts v, pExpr F m ts = some v → pExpr F' m ts = some v
+  lo : ∀ m lhs ts v, pLoop F m lhs ts = some v → pLoop F' m lhs ts = some v
+  arg : ∀ ts v, pArg F ts = some v → pArg F' ts = some v
+  args : ∀ ts v, pArgsTail F ts = some v → pArgsTail F' ts = some v
+  items : ∀ ts v, pItemsTail F ts = some v → pItemsTail F' ts = some v
+  rows : ∀ ts v, pRowsTail F ts = some v → pRowsTail F' ts = some v
+
+/-- one level of `match g with | some (a, b) => k a b | none => none`: case on the recursive call made
+    with the smaller fuel, rewrite the call with the larger fuel by the induction hypothesis. -/
+syntax "mono_lvl " ident term " with " term " as " ident ident : tactic
+macro_rules
+  | `(tactic| mono_lvl $h $g with $ih as $q1 $q2) => `(tactic| (
+      rcases hq : $g with _ | ⟨$q1, $q2⟩
+      · rw [hq] at $h:ident; simp at $h:ident
+      rw [hq] at $h:ident
+      rw [$ih _ hq]
+      try simp only [] at $h:ident ⊢))
+
+theorem pUnary_succ (f : Nat) (ts : List Tok) : pUnary (f + 1) ts =
+    match negTail ts with
+    | some r =>
+      match pUnary f r with
+      | some (e, r') => some (.neg e, r')
+      | none => none
+    | none =>
+      match pPrimary f ts with
+      | some (e, r') => some (pPostfix e r')
+      | none => none := by
+  rw [pUnary]; rfl
+
+theorem mono_step : ∀ F : Nat, Mono F (F + 1) := by
   intro F
   induction F with
   | zero =>
-    refine ⟨?_, ?_, ?_, ?_⟩ <;> intros <;> simp_all [pPrimary, pUnary, pExpr, pLoop]
+    constructor <;> intros <;> simp_all [pPrimary, pUnary, pExpr, pLoop, pArg, pArgsTail, pItemsTail, pRowsTail]
   | succ F ih =>
-    obtain ⟨ihP, ihU, ihE, ihL⟩ := ih
-    refine ⟨?_, ?_, ?_, ?_⟩
+    obtain ⟨ihP, ihU, ihE, ihL, ihA, ihAs, ihI, ihR⟩ := ih
+    constructor
     · intro ts v h
       cases ts with
       | nil => simp [pPrimary] at h
       | cons t r =>
         cases t with
-        | atom n => simpa [pPrimary] using h
+        | num t => simpa [pPrimary] using h
+        | str t => simpa [pPrimary] using h
+        | bool t => simpa [pPrimary] using h
+        | name t => simpa [pPrimary] using h
+        | fn n =>
+          simp only [pPrimary] at h ⊢
+          mono_lvl h (pArg F r) with (ihA _) as q1 q2
+          mono_lvl h (pArgsTail F q2) with (ihAs _) as z1 z2
+          exact h
         | lp =>
           simp only [pPrimary] at h ⊢
-          cases hq : pExpr F 1 r with
-          | none => rw [hq] at h; simp at h
-          | some q =>
-            rw [hq] at h
-            rw [ihE 1 r q hq]
-            exact h
+          mono_lvl h (pExpr F 1 r) with (ihE _ _) as q1 q2
+          mono_lvl h (pItemsTail F q2) with (ihI _) as z1 z2
+          exact h
+        | lb =>
+          simp only [pPrimary] at h ⊢
+          mono_lvl h (pExpr F 1 r) with (ihE _ _) as q1 q2
+          mono_lvl h (pItemsTail F q2) with (ihI _) as q3 q4
+          mono_lvl h (pRowsTail F q4) with (ihR _) as z1 z2
+          exact h
         | op o => simp [pPrimary] at h
         | rp => simp [pPrimary] at h
+        | rb => simp [pPrimary] at h
+        | comma => simp [pPrimary] at h
+        | semi => simp [pPrimary] at h
         | pct => simp [pPrimary] at h
     · intro ts v h
-      cases ts with
-      | nil => simp [pUnary] at h
-      | cons t r =>
-        cases t with
-        | op o =>
-          simp only [pUnary] at h ⊢
-          by_cases ho : o = .sub
-          · simp only [ho, if_true] at h ⊢
-            cases hq : pUnary F r with
-            | none => rw [hq] at h; simp at h
-            | some q => rw [hq] at h; rw [ihU r q hq]; exact h
-          · simp [ho] at h
-        | atom n =>
-          simp only [pUnary] at h ⊢
-          cases hq : pPrimary F (.atom n :: r) with
-          | none => rw [hq] at h; simp at h
-          | some q => rw [hq] at h; rw [ihP _ q hq]; exact h
-        | lp =>
-          simp only [pUnary] at h ⊢
-          cases hq : pPrimary F (.lp :: r) with
-          | none => rw [hq] at h; simp at h
-          | some q => rw [hq] at h; rw [ihP _ q hq]; exact h
-        | rp => simp [pUnary] at h
-        | pct => simp [pUnary] at h
+      rw [pUnary_succ] at h
+      rw [pUnary_succ]
+      cases hn : negTail ts with
+      | some r =>
+        rw [hn] at h
+        simp only [] at h ⊢
+        mono_lvl h (pUnary F r) with (ihU _) as z1 z2
+        exact h
+      | none =>
+        rw [hn] at h
+        simp only [] at h ⊢
+        mono_lvl h (pPrimary F ts) with (ihP _) as z1 z2
+        exact h
     · intro m ts v h
       simp only [pExpr] at h ⊢
-      cases hq : pUnary F ts with
-      | none => rw [hq] at h; simp at h
-      | some q =>
-        rw [hq] at h
-        rw [ihU ts q hq]
-        exact ihL m q.1 q.2 v h
+      mono_lvl h (pUnary F ts) with (ihU _) as z1 z2
+      exact ihL _ _ _ _ h
     · intro m lhs ts v h
       cases ts with
       | nil => simpa [pLoop] using h
@@ -75,31 +104,65 @@ theorem mono_step : ∀ F : Nat,
           simp only [pLoop] at h ⊢
           by_cases hm : m ≤ prec o
           · simp only [hm, if_true] at h ⊢
-            cases hq : pExpr F (prec o + 1) r with
-            | none => rw [hq] at h; simp at h
-            | some q =>
-              rw [hq] at h
-              rw [ihE _ r q hq]
-              exact ihL m _ _ v h
+            mono_lvl h (pExpr F (prec o + 1) r) with (ihE _ _) as z1 z2
+            exact ihL _ _ _ _ h
           · simpa [hm] using h
-        | atom n => simpa [pLoop] using h
-        | lp => simpa [pLoop] using h
-        | rp => simpa [pLoop] using h
-        | pct => simpa [pLoop] using h
+        | _ => simpa [pLoop] using h
+    · intro ts v h
+      simp only [pArg] at h ⊢
+      by_cases he : argEnds ts = true
+      · simpa [he] using h
+      · simp only [he] at h ⊢
+        exact ihE _ _ _ h
+    · intro ts v h
+      cases ts with
+      | nil => simpa [pArgsTail] using h
+      | cons t r =>
+        cases t with
+        | comma =>
+          simp only [pArgsTail] at h ⊢
+          mono_lvl h (pArg F r) with (ihA _) as q1 q2
+          mono_lvl h (pArgsTail F q2) with (ihAs _) as z1 z2
+          exact h
+        | _ => simpa [pArgsTail] using h
+    · intro ts v h
+      cases ts with
+      | nil => simpa [pItemsTail] using h
+      | cons t r =>
+        cases t with
+        | comma =>
+          simp only [pItemsTail] at h ⊢
+          mono_lvl h (pExpr F 1 r) with (ihE _ _) as q1 q2
+          mono_lvl h (pItemsTail F q2) with (ihI _) as z1 z2
+          exact h
+        | _ => simpa [pItemsTail] using h
+    · intro ts v h
+      cases ts with
+      | nil => simpa [pRowsTail] using h
+      | cons t r =>
+        cases t with
+        | semi =>
+          simp only [pRowsTail] at h ⊢
+          mono_lvl h (pExpr F 1 r) with (ihE _ _) as q1 q2
+          mono_lvl h (pItemsTail F q2) with (ihI _) as q3 q4
+          mono_lvl h (pRowsTail F q4) with (ihR _) as z1 z2
+          exact h
+        | _ => simpa [pRowsTail] using h
 
-theorem mono {F F' : Nat} (hle : F ≤ F') :
-    (∀ ts v, pPrimary F ts = some v → pPrimary F' ts = some v) ∧
-    (∀ ts v, pUnary F ts = some v → pUnary F' ts = some v) ∧
-    (∀ m ts v, pExpr F m ts = some v → pExpr F' m ts = some v) ∧
-    (∀ m lhs ts v, pLoop F m lhs ts = some v → pLoop F' m lhs ts = some v) := by
-  induction hle with
-  | refl => exact ⟨fun _ _ h => h, fun _ _ h => h, fun _ _ _ h => h, fun _ _ _ _ h => h⟩
-  | step _ ih =>
-    obtain ⟨a, b, c, d⟩ := ih
-    obtain ⟨a', b', c', d'⟩ := mono_step _
-    exact ⟨fun ts v h => a' ts v (a ts v h), fun ts v h => b' ts v (b ts v h),
-      fun m ts v h => c' m ts v (c m ts v h), fun m l ts v h => d' m l ts v (d m l ts v h)⟩
+theorem mono_add (F k : Nat) : Mono F (F + k) := by
+  induction k with
+  | zero => exact ⟨fun _ _ h => h, fun _ _ h => h, fun _ _ _ h => h, fun _ _ _ _ h => h,
+      fun _ _ h => h, fun _ _ h => h, fun _ _ h => h, fun _ _ h => h⟩
+  | succ k ih =>
+    have s := mono_step (F + k)
+    exact ⟨fun a b h => s.prim a b (ih.prim a b h), fun a b h => s.un a b (ih.un a b h),
+      fun a b c h => s.ex a b c (ih.ex a b c h), fun a b c d h => s.lo a b c d (ih.lo a b c d h),
+      fun a b h => s.arg a b (ih.arg a b h), fun a b h => s.args a b (ih.args a b h),
+      fun a b h => s.items a b (ih.items a b h), fun a b h => s.rows a b (ih.rows a b h)⟩
 
+theorem mono {F F' : Nat} (hle : F ≤ F') : Mono F F' := by
+  obtain ⟨k, rfl⟩ := Nat.exists_eq_add_of_le hle
+  exact mono_add F k
 
 
 /-! ### what may follow an expression -/
@@ -107,201 +170,453 @@ theorem mono {F F' : Nat} (hle : F ≤ F') :
 def stop (m : Nat) : List Tok → Prop
   | [] => True
   | .rp :: _ => True
+  | .rb :: _ => True
+  | .comma :: _ => True
+  | .semi :: _ => True
   | .op o :: _ => prec o < m
   | _ => False
 
 def okFollow (L : Nat) : List Tok → Prop
   | [] => True
   | .rp :: _ => True
+  | .rb :: _ => True
+  | .comma :: _ => True
+  | .semi :: _ => True
   | .op o :: _ => prec o ≤ L
+  | _ => False
+
+/-- what ends a comma-separated sequence. -/
+def closes : List Tok → Prop
+  | .rp :: _ => True
+  | .rb :: _ => True
+  | .semi :: _ => True
   | _ => False
 
 theorem one_le_prec (o : BinOp) : 1 ≤ prec o := by cases o <;> simp [prec]
 theorem prec_le_five (o : BinOp) : prec o ≤ 5 := by cases o <;> simp [prec]
-theorem one_le_lvl (e : PE) : 1 ≤ lvl e := by
-  cases e <;> simp [lvl]; exact one_le_prec _
 
 theorem okFollow_of_stop {m L : Nat} (h : m ≤ L) : ∀ rest, stop m rest → okFollow L rest
   | [], _ => trivial
-  | .rp :: _, _ => trivial
-  | .op o :: _, hs => by simp only [stop] at hs; simp only [okFollow]; omega
-  | .atom _ :: _, hs => by simp [stop] at hs
-  | .lp :: _, hs => by simp [stop] at hs
-  | .pct :: _, hs => by simp [stop] at hs
+  | t :: _, hs => by
+    cases t <;> simp only [stop] at hs <;> simp only [okFollow] <;> omega
 
 theorem stop_of_okFollow {L : Nat} : ∀ rest, okFollow L rest → stop (L + 1) rest
   | [], _ => trivial
-  | .rp :: _, _ => trivial
-  | .op o :: _, hs => by simp only [okFollow] at hs; simp only [stop]; omega
-  | .atom _ :: _, hs => by simp [okFollow] at hs
-  | .lp :: _, hs => by simp [okFollow] at hs
-  | .pct :: _, hs => by simp [okFollow] at hs
+  | t :: _, hs => by
+    cases t <;> simp only [okFollow] at hs <;> simp only [stop] <;> omega
 
 theorem okFollow_not_pct {L : Nat} : ∀ rest, okFollow L rest → rest.head? ≠ some .pct
   | [], _ => by simp
-  | .rp :: _, _ => by simp
-  | .op o :: _, _ => by simp
-  | .atom _ :: _, hs => by simp [okFollow] at hs
-  | .lp :: _, hs => by simp [okFollow] at hs
-  | .pct :: _, hs => by simp [okFollow] at hs
+  | t :: _, hs => by cases t <;> simp_all [okFollow]
 
-theorem pLoop_stop (F m : Nat) (e : PE) : ∀ rest, stop m rest → pLoop (F + 1) m e rest = some (e, rest)
+theorem stop_of_closes (m : Nat) : ∀ rest, closes rest → stop m rest
+  | [], h => by simp [closes] at h
+  | t :: _, h => by cases t <;> simp_all [closes, stop]
+
+theorem stop_comma (m : Nat) (r : List Tok) : stop m (.comma :: r) := trivial
+
+theorem pLoop_stop (F m : Nat) (e : PT) : ∀ rest, stop m rest → pLoop (F + 1) m e rest = some (e, rest)
   | [], _ => by simp [pLoop]
-  | .rp :: _, _ => by simp [pLoop]
-  | .op o :: r, hs => by
-    simp only [stop] at hs
-    have : ¬ m ≤ prec o := by omega
-    simp [pLoop, this]
-  | .atom _ :: _, hs => by simp [stop] at hs
-  | .lp :: _, hs => by simp [stop] at hs
-  | .pct :: _, hs => by simp [stop] at hs
+  | t :: r, hs => by
+    cases t with
+    | op o =>
+      simp only [stop] at hs
+      have : ¬ m ≤ prec o := by omega
+      simp [pLoop, this]
+    | _ => simp [pLoop]
 
-theorem pPostfix_not_pct (e : PE) : ∀ rest, rest.head? ≠ some .pct → pPostfix e rest = (e, rest)
+theorem pPostfix_not_pct (e : PT) : ∀ rest, rest.head? ≠ some .pct → pPostfix e rest = (e, rest)
   | [], _ => by simp [pPostfix]
-  | .pct :: _, h => by simp at h
-  | .rp :: _, _ => by simp [pPostfix]
-  | .op _ :: _, _ => by simp [pPostfix]
-  | .atom _ :: _, _ => by simp [pPostfix]
-  | .lp :: _, _ => by simp [pPostfix]
+  | t :: _, h => by cases t <;> first | (simp at h; done) | simp [pPostfix]
 
-theorem head_primary : ∀ (e : PE), WP e → 7 ≤ lvl e → ∀ rest,
-    (∃ n r, toks e ++ rest = .atom n :: r) ∨ (∃ r, toks e ++ rest = .lp :: r)
-  | .atom n, _, _, rest => Or.inl ⟨n, rest, by simp [toks]⟩
-  | .paren e, _, _, rest => Or.inr ⟨toks e ++ [.rp] ++ rest, by simp [toks]⟩
-  | .pct e, hw, _, rest => by
-    simp only [WP] at hw
-    have := head_primary e hw.1 hw.2 ([.pct] ++ rest)
-    simpa [toks, List.append_assoc] using this
-  | .neg _, _, hl, _ => by simp [lvl] at hl
-  | .bin o _ _, _, hl, _ => by simp only [lvl] at hl; have := prec_le_five o; omega
+theorem pItemsTail_closes (F : Nat) : ∀ rest, closes rest → pItemsTail (F + 1) rest = some ([], rest)
+  | [], h => by simp [closes] at h
+  | t :: _, h => by cases t <;> first | (simp [closes] at h; done) | simp [pItemsTail]
 
-theorem pUnary_primary (F : Nat) (ts : List Tok)
-    (h : (∃ n r, ts = .atom n :: r) ∨ (∃ r, ts = .lp :: r)) :
-    pUnary (F + 1) ts = match pPrimary F ts with
-      | some (e, r') => some (pPostfix e r')
-      | none => none := by
-  rcases h with ⟨n, r, rfl⟩ | ⟨r, rfl⟩ <;> simp only [pUnary] <;> (split <;> simp_all)
+/-! ### how an expression starts -/
 
-/-! ### the climbing invariant -/
+def startsPrim : List Tok → Bool
+  | .num _ :: _ => true
+  | .str _ :: _ => true
+  | .bool _ :: _ => true
+  | .name _ :: _ => true
+  | .fn _ :: _ => true
+  | .lp :: _ => true
+  | .lb :: _ => true
+  | _ => false
 
-def G (e : PE) : Prop := ∀ m, m ≤ lvl e → ∀ rest, okFollow (lvl e) rest → ∀ F v,
-  pLoop F m e rest = some v → ∃ F', pExpr F' m (toks e ++ rest) = some v
-def U (e : PE) : Prop := ∀ rest, rest.head? ≠ some .pct → ∃ F, pUnary F (toks e ++ rest) = some (e, rest)
-def Q (e : PE) : Prop := ∀ rest, ∃ F,
+def startsExpr : List Tok → Bool
+  | .op .sub :: _ => true
+  | ts => startsPrim ts
+
+theorem startsExpr_of_prim {ts : List Tok} (h : startsPrim ts = true) : startsExpr ts = true := by
+  cases ts with
+  | nil => simp [startsPrim] at h
+  | cons t r => cases t <;> simp_all [startsPrim, startsExpr]
+
+theorem starts : ∀ e : PT, WP e = true → ∀ rest,
+    startsExpr (toks e ++ rest) = true ∧ (7 ≤ lvl e → startsPrim (toks e ++ rest) = true)
+  | .num _, _, _ => by simp [toks, startsExpr, startsPrim]
+  | .str _, _, _ => by simp [toks, startsExpr, startsPrim]
+  | .bool _, _, _ => by simp [toks, startsExpr, startsPrim]
+  | .name _, _, _ => by simp [toks, startsExpr, startsPrim]
+  | .empty, h, _ => by simp [WP] at h
+  | .paren _, _, _ => by simp [toks, startsExpr, startsPrim]
+  | .call _ _, _, _ => by simp [toks, startsExpr, startsPrim]
+  | .arr _, _, _ => by simp [toks, startsExpr, startsPrim]
+  | .neg _, _, _ => by simp [toks, startsExpr, lvl]
+  | .pct x, h, rest => by
+    simp only [WP, Bool.and_eq_true, decide_eq_true_eq] at h
+    have := starts x h.1 ([.pct] ++ rest)
+    simp only [toks, List.append_assoc]
+    exact ⟨this.1, fun _ => this.2 h.2⟩
+  | .bin o l r, h, rest => by
+    simp only [WP, Bool.and_eq_true, decide_eq_true_eq] at h
+    have := starts l h.1.1.1 (.op o :: (toks r ++ rest))
+    simp only [toks, List.append_assoc, List.cons_append]
+    refine ⟨this.1, fun hl => ?_⟩
+    simp only [lvl] at hl; have := prec_le_five o; omega
+
+theorem negTail_of_prim {ts : List Tok} (h : startsPrim ts = true) : negTail ts = none := by
+  cases ts with
+  | nil => rfl
+  | cons t r => cases t <;> simp_all [startsPrim, negTail]
+
+theorem argEnds_of_expr {ts : List Tok} (h : startsExpr ts = true) : argEnds ts = false := by
+  cases ts with
+  | nil => rfl
+  | cons t r =>
+    cases t with
+    | op o => cases o <;> simp_all [startsExpr, startsPrim, argEnds]
+    | _ => simp_all [startsExpr, startsPrim, argEnds]
+
+theorem not_rp_of_expr {ts : List Tok} (h : startsExpr ts = true) : ∀ r, ts ≠ .rp :: r := by
+  intro r e; subst e; simp [startsExpr, startsPrim] at h
+
+/-! ### the climbing invariant, with explicit fuel (4 units per token) -/
+
+def G (e : PT) : Prop := ∀ m, m ≤ lvl e → ∀ rest, okFollow (lvl e) rest → ∀ F v,
+  pLoop F m e rest = some v → ∀ F', F + 4 * (toks e).length + 2 ≤ F' → pExpr F' m (toks e ++ rest) = some v
+def U (e : PT) : Prop := ∀ rest, rest.head? ≠ some .pct → ∀ F, 4 * (toks e).length + 1 ≤ F →
+  pUnary F (toks e ++ rest) = some (e, rest)
+def Q (e : PT) : Prop := ∀ rest F, 4 * (toks e).length ≤ F →
   (pPrimary F (toks e ++ rest)).map (fun p => pPostfix p.1 p.2) = some (pPostfix e rest)
+def IT (es : List PT) : Prop := ∀ rest, closes rest → ∀ F, 4 * (toksTail es).length + 1 ≤ F →
+  pItemsTail F (toksTail es ++ rest) = some (es, rest)
+def AT (args : List PT) : Prop := ∀ rest F, 4 * (toksTail args).length + 1 ≤ F →
+  pArgsTail F (toksTail args ++ .rp :: rest) = some (args, .rp :: rest)
+def RT (rs : List (List PT)) : Prop := ∀ rest F, 4 * (toksRowsTail rs).length + 1 ≤ F →
+  pRowsTail F (toksRowsTail rs ++ .rb :: rest) = some (rs, .rb :: rest)
 
-theorem T_of_G {e : PE} (hg : G e) (m : Nat) (hm : m ≤ lvl e) (rest : List Tok) (hs : stop m rest) :
-    ∃ F, pExpr F m (toks e ++ rest) = some (e, rest) :=
-  hg m hm rest (okFollow_of_stop hm rest hs) 1 (e, rest) (pLoop_stop 0 m e rest hs)
+theorem one_le_lvl (e : PT) (h : WP e = true) : 1 ≤ lvl e := by
+  cases e <;> simp_all [lvl, WP]; exact one_le_prec _
 
-theorem G_of_U {e : PE} (hu : U e) : G e := by
-  intro m _ rest hok F v hl
-  obtain ⟨F1, h1⟩ := hu rest (okFollow_not_pct rest hok)
-  refine ⟨max F1 F + 1, ?_⟩
+theorem T_of_G {e : PT} (hg : G e) (m : Nat) (hm : m ≤ lvl e) (rest : List Tok) (hs : stop m rest)
+    (F : Nat) (hF : 4 * (toks e).length + 3 ≤ F) : pExpr F m (toks e ++ rest) = some (e, rest) :=
+  hg m hm rest (okFollow_of_stop hm rest hs) 1 (e, rest) (pLoop_stop 0 m e rest hs) F (by omega)
+
+theorem G_of_U {e : PT} (hu : U e) : G e := by
+  intro m _ rest hok F v hl F' hF'
+  obtain ⟨F0, rfl⟩ : ∃ F0, F' = F0 + 1 := ⟨F' - 1, by omega⟩
   simp only [pExpr]
-  rw [(mono (Nat.le_max_left F1 F)).2.1 _ _ h1]
-  exact (mono (Nat.le_max_right F1 F)).2.2.2 _ _ _ _ hl
+  rw [hu rest (okFollow_not_pct rest hok) F0 (by omega)]
+  exact (mono (by omega)).lo _ _ _ _ hl
 
-theorem U_of_Q {e : PE} (hw : WP e) (hl : 7 ≤ lvl e) (hq : Q e) : U e := by
-  intro rest hr
-  obtain ⟨F, hF⟩ := hq rest
-  refine ⟨F + 1, ?_⟩
-  rw [pUnary_primary F _ (head_primary e hw hl rest)]
+theorem U_of_Q {e : PT} (hw : WP e = true) (hl : 7 ≤ lvl e) (hq : Q e) : U e := by
+  intro rest hr F hF
+  obtain ⟨F0, rfl⟩ : ∃ F0, F = F0 + 1 := ⟨F - 1, by omega⟩
+  have hF := hq rest F0 (by omega)
+  rw [pUnary_succ, negTail_of_prim ((starts e hw rest).2 hl)]
   rw [pPostfix_not_pct e rest hr] at hF
-  cases hp : pPrimary F (toks e ++ rest) with
+  cases hp : pPrimary F0 (toks e ++ rest) with
   | none => rw [hp] at hF; simp at hF
   | some p =>
     rw [hp] at hF
     simpa using hF
 
-theorem main : ∀ e : PE, WP e → G e ∧ (6 ≤ lvl e → U e) ∧ (7 ≤ lvl e → Q e)
-  | .atom n, _ => by
-    have hq : Q (.atom n) := fun rest => ⟨1, by simp [toks, pPrimary]⟩
-    have hu : U (.atom n) := U_of_Q trivial (by simp [lvl]) hq
-    exact ⟨G_of_U hu, fun _ => hu, fun _ => hq⟩
-  | .paren x, hw => by
-    have hx := main x hw
-    have hq : Q (.paren x) := by
-      intro rest
-      obtain ⟨F, hF⟩ := T_of_G hx.1 1 (one_le_lvl x) (.rp :: rest) trivial
-      refine ⟨F + 1, ?_⟩
-      have : toks (.paren x) ++ rest = .lp :: (toks x ++ .rp :: rest) := by simp [toks]
-      rw [this]
-      simp [pPrimary, hF]
-    have hu : U (.paren x) := U_of_Q hw (by simp [lvl]) hq
-    exact ⟨G_of_U hu, fun _ => hu, fun _ => hq⟩
+theorem atom_main (e : PT) (hw : WP e = true) (hl : lvl e = 8) (n : (toks e).length = 1)
+    (hp : ∀ rest F, pPrimary (F + 1) (toks e ++ rest) = some (e, rest)) :
+    G e ∧ (6 ≤ lvl e → U e) ∧ (7 ≤ lvl e → Q e) := by
+  have hq : Q e := by
+    intro rest F hF
+    obtain ⟨F0, rfl⟩ : ∃ F0, F = F0 + 1 := ⟨F - 1, by omega⟩
+    rw [hp]; rfl
+  have hu : U e := U_of_Q hw (by omega) hq
+  exact ⟨G_of_U hu, fun _ => hu, fun _ => hq⟩
+
+theorem prim_main (e : PT) (hw : WP e = true) (hl : lvl e = 8) (hq : Q e) :
+    G e ∧ (6 ≤ lvl e → U e) ∧ (7 ≤ lvl e → Q e) := by
+  have hu : U e := U_of_Q hw (by omega) hq
+  exact ⟨G_of_U hu, fun _ => hu, fun _ => hq⟩
+
+
+theorem wps_cons {e : PT} {es : List PT} (h : WPs (e :: es) = true) : WP e = true ∧ WPs es = true := by
+  simpa [WPs] using h
+
+theorem argEnds_tail_rp (args : List PT) (rest : List Tok) : argEnds (toksTail args ++ .rp :: rest) = true := by
+  cases args <;> simp [toksTail, argEnds]
+
+theorem stop_tail_closes (m : Nat) (es : List PT) (rest : List Tok) (h : closes rest) :
+    stop m (toksTail es ++ rest) := by
+  cases es with
+  | nil => exact stop_of_closes m rest h
+  | cons e es => simp [toksTail, stop]
+
+theorem closes_rowsTail (rs : List (List PT)) (rest : List Tok) : closes (toksRowsTail rs ++ .rb :: rest) := by
+  cases rs <;> simp [toksRowsTail, closes]
+
+mutual
+theorem main : ∀ e : PT, WP e = true → G e ∧ (6 ≤ lvl e → U e) ∧ (7 ≤ lvl e → Q e)
+  | .num t, hw => atom_main _ hw rfl rfl (fun rest F => by simp [toks, pPrimary])
+  | .str t, hw => atom_main _ hw rfl rfl (fun rest F => by simp [toks, pPrimary])
+  | .bool t, hw => atom_main _ hw rfl rfl (fun rest F => by simp [toks, pPrimary])
+  | .name t, hw => atom_main _ hw rfl rfl (fun rest F => by simp [toks, pPrimary])
+  | .empty, hw => by simp [WP] at hw
+  | .paren [], hw => by simp [WP] at hw
+  | .paren (e :: es), hw => by
+    have hw' : WP e = true ∧ WPs es = true := by
+      simp only [WP, List.isEmpty_cons, Bool.not_false, Bool.true_and] at hw; exact wps_cons hw
+    have he := main e hw'.1
+    have hes := mainItems es hw'.2
+    refine prim_main _ hw rfl ?_
+    intro rest F hF
+    have hlen : (toks (.paren (e :: es))).length = (toks e).length + (toksTail es).length + 2 := by
+      simp [toks, toksSeq]; omega
+    rw [hlen] at hF
+    obtain ⟨F0, rfl⟩ : ∃ F0, F = F0 + 1 := ⟨F - 1, by omega⟩
+    have e1 : toks (.paren (e :: es)) ++ rest = .lp :: (toks e ++ (toksTail es ++ .rp :: rest)) := by
+      simp [toks, toksSeq]
+    rw [e1]
+    simp only [pPrimary]
+    rw [T_of_G he.1 1 (one_le_lvl e hw'.1) _ (stop_tail_closes 1 es (.rp :: rest) trivial) F0 (by omega)]
+    simp only []
+    rw [hes (.rp :: rest) trivial F0 (by omega)]
+    rfl
+  | .call f [], hw => by
+    refine prim_main _ hw rfl ?_
+    intro rest F hF
+    have hlen : (toks (.call f [])).length = 2 := by simp [toks, toksSeq]
+    rw [hlen] at hF
+    obtain ⟨F0, rfl⟩ : ∃ F0, F = F0 + 2 := ⟨F - 2, by omega⟩
+    have e1 : toks (.call f []) ++ rest = .fn f :: .rp :: rest := by simp [toks, toksSeq]
+    rw [e1]
+    simp [pPrimary, pArg, argEnds, pArgsTail, normArgs, isEmpty]
+  | .call f (a :: tl), hw => by
+    have hw' : ¬ (tl = [] ∧ isEmpty a = true) ∧ (isEmpty a = true ∨ WP a = true) ∧ WPArgs tl = true := by
+      simp only [WP, WPLone, WPArgs, Bool.and_eq_true, Bool.not_eq_true', Bool.or_eq_true] at hw
+      refine ⟨?_, hw.2.1, hw.2.2⟩
+      rintro ⟨h1, h2⟩
+      subst h1
+      simp [h2] at hw
+    have has := mainArgs tl hw'.2.2
+    refine prim_main _ hw rfl ?_
+    intro rest F hF
+    have hlen : (toks (.call f (a :: tl))).length = (toks a).length + (toksTail tl).length + 2 := by
+      simp [toks, toksSeq]; omega
+    rw [hlen] at hF
+    obtain ⟨F0, rfl⟩ : ∃ F0, F = F0 + 2 := ⟨F - 2, by omega⟩
+    have e1 : toks (.call f (a :: tl)) ++ rest = .fn f :: (toks a ++ (toksTail tl ++ .rp :: rest)) := by
+      simp [toks, toksSeq]
+    rw [e1]
+    simp only [pPrimary]
+    have hnorm : normArgs (a :: tl) = a :: tl := by
+      cases tl with
+      | nil =>
+        have : isEmpty a = false := by
+          cases h : isEmpty a with
+          | false => rfl
+          | true => exact absurd ⟨rfl, h⟩ hw'.1
+        simp [normArgs, this]
+      | cons b bs => simp [normArgs]
+    have harg : pArg (F0 + 1) (toks a ++ (toksTail tl ++ .rp :: rest)) = some (a, toksTail tl ++ .rp :: rest) := by
+      rcases hw'.2.1 with hemp | hwa
+      · cases a <;> simp [isEmpty] at hemp
+        simp [toks, pArg, argEnds_tail_rp]
+      · have ha := main a hwa
+        simp only [pArg, argEnds_of_expr ((starts a hwa _).1), Bool.false_eq_true, if_false]
+        have hst : stop 1 (toksTail tl ++ .rp :: rest) := stop_tail_closes 1 tl (.rp :: rest) trivial
+        exact T_of_G ha.1 1 (one_le_lvl a hwa) _ hst F0 (by omega)
+    rw [harg]
+    simp only []
+    rw [has rest (F0 + 1) (by omega)]
+    simp only [hnorm]
+    rfl
+  | .arr [], hw => by simp [WP] at hw
+  | .arr ([] :: rs), hw => by simp [WP, WPRows] at hw
+  | .arr ((e :: es) :: rs), hw => by
+    have hw' : WP e = true ∧ WPs es = true ∧ WPRows rs = true := by
+      simp only [WP, WPRows, List.isEmpty_cons, Bool.not_false, Bool.true_and, Bool.and_eq_true] at hw
+      exact ⟨(wps_cons hw.1).1, (wps_cons hw.1).2, hw.2⟩
+    have he := main e hw'.1
+    have hes := mainItems es hw'.2.1
+    have hrs := mainRows rs hw'.2.2
+    refine prim_main _ hw rfl ?_
+    intro rest F hF
+    have hlen : (toks (.arr ((e :: es) :: rs))).length
+        = (toks e).length + (toksTail es).length + (toksRowsTail rs).length + 2 := by
+      simp [toks, toksRows, toksSeq]; omega
+    rw [hlen] at hF
+    obtain ⟨F0, rfl⟩ : ∃ F0, F = F0 + 1 := ⟨F - 1, by omega⟩
+    have e1 : toks (.arr ((e :: es) :: rs)) ++ rest
+        = .lb :: (toks e ++ (toksTail es ++ (toksRowsTail rs ++ .rb :: rest))) := by
+      simp [toks, toksRows, toksSeq]
+    rw [e1]
+    simp only [pPrimary]
+    have hcl := closes_rowsTail rs rest
+    rw [T_of_G he.1 1 (one_le_lvl e hw'.1) _ (stop_tail_closes 1 es _ hcl) F0 (by omega)]
+    simp only []
+    rw [hes _ hcl F0 (by omega)]
+    simp only []
+    rw [hrs rest F0 (by omega)]
+    rfl
   | .pct x, hw => by
-    have hw' := hw
-    simp only [WP] at hw'
+    have hw' : WP x = true ∧ 7 ≤ lvl x := by simpa [WP] using hw
     have hx := main x hw'.1
     have hq : Q (.pct x) := by
-      intro rest
-      obtain ⟨F, hF⟩ := hx.2.2 hw'.2 (.pct :: rest)
-      refine ⟨F, ?_⟩
-      have : toks (.pct x) ++ rest = toks x ++ .pct :: rest := by simp [toks]
-      rw [this, hF]
+      intro rest F hF
+      have hlen : (toks (.pct x)).length = (toks x).length + 1 := by simp [toks]
+      rw [hlen] at hF
+      have := hx.2.2 hw'.2 (.pct :: rest) F (by omega)
+      have e1 : toks (.pct x) ++ rest = toks x ++ .pct :: rest := by simp [toks]
+      rw [e1, this]
       simp [pPostfix]
     have hu : U (.pct x) := U_of_Q hw (by simp [lvl]) hq
-    exact ⟨G_of_U hu, fun _ => hu, fun h => hq⟩
+    exact ⟨G_of_U hu, fun _ => hu, fun _ => hq⟩
   | .neg x, hw => by
-    have hw' := hw
-    simp only [WP] at hw'
+    have hw' : WP x = true ∧ 6 ≤ lvl x := by simpa [WP] using hw
     have hx := main x hw'.1
     have hu : U (.neg x) := by
-      intro rest hr
-      obtain ⟨F, hF⟩ := hx.2.1 hw'.2 rest hr
-      refine ⟨F + 1, ?_⟩
-      have : toks (.neg x) ++ rest = .op .sub :: (toks x ++ rest) := by simp [toks]
-      rw [this]
-      simp [pUnary, hF]
+      intro rest hr F hF
+      have hlen : (toks (.neg x)).length = (toks x).length + 1 := by simp [toks]
+      rw [hlen] at hF
+      obtain ⟨F0, rfl⟩ : ∃ F0, F = F0 + 1 := ⟨F - 1, by omega⟩
+      have e1 : toks (.neg x) ++ rest = .op .sub :: (toks x ++ rest) := by simp [toks]
+      rw [e1, pUnary_succ]
+      simp only [negTail]
+      rw [hx.2.1 hw'.2 rest hr F0 (by omega)]
     exact ⟨G_of_U hu, fun _ => hu, fun h => by simp [lvl] at h⟩
   | .bin o l r, hw => by
-    have hw' := hw
-    simp only [WP] at hw'
-    obtain ⟨hwl, hwr, hll, hlr⟩ := hw'
+    have hw' : ((WP l = true ∧ WP r = true) ∧ prec o ≤ lvl l) ∧ prec o < lvl r := by
+      simpa [WP] using hw
+    obtain ⟨⟨⟨hwl, hwr⟩, hll⟩, hlr⟩ := hw'
     have hl := main l hwl
     have hr := main r hwr
     refine ⟨?_, fun h => ?_, fun h => ?_⟩
-    · intro m hm rest hok F v hloop
+    · intro m hm rest hok F v hloop F' hF'
       simp only [lvl] at hm hok
-      obtain ⟨F2, h2⟩ := T_of_G hr.1 (prec o + 1) (by omega) rest (stop_of_okFollow rest hok)
-      have hstep : pLoop (max F F2 + 1) m l (.op o :: (toks r ++ rest)) = some v := by
+      have hlen : (toks (.bin o l r)).length = (toks l).length + (toks r).length + 1 := by
+        simp [toks]; omega
+      rw [hlen] at hF'
+      have hF1 : 1 ≤ F := by
+        cases F with
+        | zero => simp [pLoop] at hloop
+        | succ k => omega
+      have h2 := T_of_G hr.1 (prec o + 1) (by omega) rest (stop_of_okFollow rest hok)
+      have hstep : pLoop (F + 4 * (toks r).length + 3) m l (.op o :: (toks r ++ rest)) = some v := by
+        have : F + 4 * (toks r).length + 3 = (F + 4 * (toks r).length + 2) + 1 := by omega
+        rw [this]
         simp only [pLoop, hm, if_true]
-        rw [(mono (Nat.le_max_right F F2)).2.2.1 _ _ _ h2]
-        exact (mono (Nat.le_max_left F F2)).2.2.2 _ _ _ _ hloop
+        rw [h2 _ (by omega)]
+        exact (mono (by omega)).lo _ _ _ _ hloop
       have hokl : okFollow (lvl l) (.op o :: (toks r ++ rest)) := by simp only [okFollow]; exact hll
-      obtain ⟨F', hF'⟩ := hl.1 m (by omega) _ hokl _ v hstep
-      refine ⟨F', ?_⟩
-      have : toks (.bin o l r) ++ rest = toks l ++ .op o :: (toks r ++ rest) := by simp [toks]
-      rw [this]; exact hF'
+      have := hl.1 m (by omega) _ hokl _ v hstep F' (by omega)
+      have e1 : toks (.bin o l r) ++ rest = toks l ++ .op o :: (toks r ++ rest) := by simp [toks]
+      rw [e1]; exact this
     · simp only [lvl] at h; have := prec_le_five o; omega
     · simp only [lvl] at h; have := prec_le_five o; omega
+theorem mainItems : ∀ es : List PT, WPs es = true → IT es
+  | [], _ => by
+    intro rest hc F hF
+    obtain ⟨F0, rfl⟩ : ∃ F0, F = F0 + 1 := ⟨F - 1, by omega⟩
+    simpa [toksTail] using pItemsTail_closes F0 rest hc
+  | e :: es, hw => by
+    have hw' := wps_cons hw
+    have he := main e hw'.1
+    have hes := mainItems es hw'.2
+    intro rest hc F hF
+    have hlen : (toksTail (e :: es)).length = (toks e).length + (toksTail es).length + 1 := by
+      simp [toksTail]
+    rw [hlen] at hF
+    obtain ⟨F0, rfl⟩ : ∃ F0, F = F0 + 1 := ⟨F - 1, by omega⟩
+    have e1 : toksTail (e :: es) ++ rest = .comma :: (toks e ++ (toksTail es ++ rest)) := by simp [toksTail]
+    rw [e1]
+    simp only [pItemsTail]
+    rw [T_of_G he.1 1 (one_le_lvl e hw'.1) _ (stop_tail_closes 1 es _ hc) F0 (by omega)]
+    simp only []
+    rw [hes rest hc F0 (by omega)]
+theorem mainArgs : ∀ args : List PT, WPArgs args = true → AT args
+  | [], _ => by
+    intro rest F hF
+    obtain ⟨F0, rfl⟩ : ∃ F0, F = F0 + 1 := ⟨F - 1, by omega⟩
+    simp [toksTail, pArgsTail]
+  | a :: tl, hw => by
+    have hw' : (isEmpty a = true ∨ WP a = true) ∧ WPArgs tl = true := by
+      simpa [WPArgs] using hw
+    have has := mainArgs tl hw'.2
+    intro rest F hF
+    have hlen : (toksTail (a :: tl)).length = (toks a).length + (toksTail tl).length + 1 := by
+      simp [toksTail]
+    rw [hlen] at hF
+    obtain ⟨F0, rfl⟩ : ∃ F0, F = F0 + 2 := ⟨F - 2, by omega⟩
+    have e1 : toksTail (a :: tl) ++ .rp :: rest = .comma :: (toks a ++ (toksTail tl ++ .rp :: rest)) := by
+      simp [toksTail]
+    rw [e1]
+    simp only [pArgsTail]
+    have harg : pArg (F0 + 1) (toks a ++ (toksTail tl ++ .rp :: rest)) = some (a, toksTail tl ++ .rp :: rest) := by
+      rcases hw'.1 with hemp | hwa
+      · cases a <;> simp [isEmpty] at hemp
+        simp [toks, pArg, argEnds_tail_rp]
+      · have ha := main a hwa
+        simp only [pArg, argEnds_of_expr ((starts a hwa _).1), Bool.false_eq_true, if_false]
+        have hst : stop 1 (toksTail tl ++ .rp :: rest) := stop_tail_closes 1 tl (.rp :: rest) trivial
+        exact T_of_G ha.1 1 (one_le_lvl a hwa) _ hst F0 (by omega)
+    rw [harg]
+    simp only []
+    rw [has rest (F0 + 1) (by omega)]
+theorem mainRows : ∀ rs : List (List PT), WPRows rs = true → RT rs
+  | [], _ => by
+    intro rest F hF
+    obtain ⟨F0, rfl⟩ : ∃ F0, F = F0 + 1 := ⟨F - 1, by omega⟩
+    simp [toksRowsTail, pRowsTail]
+  | [] :: rs, hw => by simp [WPRows] at hw
+  | (e :: es) :: rs, hw => by
+    have hw' : WP e = true ∧ WPs es = true ∧ WPRows rs = true := by
+      simp only [WPRows, List.isEmpty_cons, Bool.not_false, Bool.true_and, Bool.and_eq_true] at hw
+      exact ⟨(wps_cons hw.1).1, (wps_cons hw.1).2, hw.2⟩
+    have he := main e hw'.1
+    have hes := mainItems es hw'.2.1
+    have hrs := mainRows rs hw'.2.2
+    intro rest F hF
+    have hlen : (toksRowsTail ((e :: es) :: rs)).length
+        = (toks e).length + (toksTail es).length + (toksRowsTail rs).length + 1 := by
+      simp [toksRowsTail, toksSeq]; omega
+    rw [hlen] at hF
+    obtain ⟨F0, rfl⟩ : ∃ F0, F = F0 + 1 := ⟨F - 1, by omega⟩
+    have e1 : toksRowsTail ((e :: es) :: rs) ++ .rb :: rest
+        = .semi :: (toks e ++ (toksTail es ++ (toksRowsTail rs ++ .rb :: rest))) := by
+      simp [toksRowsTail, toksSeq]
+    rw [e1]
+    simp only [pRowsTail]
+    have hcl := closes_rowsTail rs rest
+    rw [T_of_G he.1 1 (one_le_lvl e hw'.1) _ (stop_tail_closes 1 es _ hcl) F0 (by omega)]
+    simp only []
+    rw [hes _ hcl F0 (by omega)]
+    simp only []
+    rw [hrs rest F0 (by omega)]
+end
 
-/-- every well-parenthesised tree of the fragment is read back from its token stream. -/
-theorem parse_toks (e : PE) (hw : WP e) : ∃ F, ∀ F', F ≤ F' → parse F' (toks e) = some e := by
-  obtain ⟨F, hF⟩ := T_of_G (main e hw).1 1 (one_le_lvl e) [] trivial
-  refine ⟨F, fun F' hle => ?_⟩
-  have := (mono hle).2.2.1 _ _ _ hF
+/-- every well-parenthesised tree is read back from its token stream, by `parseToks` (whose fuel,
+    four units per token, always suffices). -/
+theorem parseToks_toks (e : PT) (hw : WP e = true) : parseToks (toks e) = some e := by
+  have := T_of_G (main e hw).1 1 (one_le_lvl e hw) [] trivial (4 * (toks e).length + 3) (Nat.le_refl _)
+  simp only [List.append_nil] at this
+  simp [parseToks, parse, this]
+
+/-- … and by `parse` with any larger fuel. -/
+theorem parse_toks (e : PT) (hw : WP e = true) (F : Nat) (hF : 4 * (toks e).length + 3 ≤ F) :
+    parse F (toks e) = some e := by
+  have := T_of_G (main e hw).1 1 (one_le_lvl e hw) [] trivial F hF
   simp only [List.append_nil] at this
   simp [parse, this]
-
-/-- the token stream is the rendered text, token by token. -/
-theorem render_embed (name : Nat → Text) : ∀ e : PE,
-    render (embed name e) = ((toks e).map (tokText name)).flatten
-  | .atom n => by simp [embed, render, toks, tokText]
-  | .bin o l r => by
-    simp [embed, render, toks, tokText, render_embed name l, render_embed name r]
-  | .neg e => by
-    simp [embed, render, toks, tokText, render_embed name e, glyph]
-  | .pct e => by simp [embed, render, toks, tokText, render_embed name e]
-  | .paren e => by
-    simp [embed, render, renderList, join, toks, tokText, render_embed name e]
-
-theorem wellFormed_embed (name : Nat → Text) : ∀ e : PE, WellFormed (embed name e) = true
-  | .atom n => by simp [embed, WellFormed]
-  | .bin o l r => by simp [embed, WellFormed, wellFormed_embed name l, wellFormed_embed name r]
-  | .neg e => by simp [embed, WellFormed, wellFormed_embed name e]
-  | .pct e => by simp [embed, WellFormed, wellFormed_embed name e]
-  | .paren e => by simp [embed, WellFormed, WellFormedList, wellFormed_embed name e]
 
 end NumbersModel.Formula.Parse
